@@ -191,17 +191,25 @@ end
 
 /-! ### load order
 
-Full strength: processing does not depend on the order in which the sources were loaded.  This
-is stated here as a proposition, *not* proved.  The registry half is `Props.C13.registry_perm_invariant(_stmt)`
-(every key of `ms.Modules` / `ms.SubModules` is bound to the same statement in every load order).
-What is missing is the other half: that `processAll` reads the registry only through those
-bindings and the statements — i.e. invariance of `toEntry`, `find`, the augment loop, deviations,
-type and identity resolution under renaming of the load sequence numbers `Mod.seq`, which the
-model uses as module identities (tree ids, `nodeMod`, visited sets).  That is a simulation proof
-through every layer of the resolver model and has not been done.  Until then load-order
-independence of the *model* is checked by the correspondence runner on every generated set (the
-driver is asked for the reversed and a shuffled load order as well), and that of the *code* by
-all or 24 / 200 sampled permutations per set. -/
+Full strength as first written: processing does not depend on the order in which the sources
+were loaded, for ANY list of texts.  Stated here as a proposition; as written it is FALSE of model
+and code: two texts that define the same (kind, name, revision) are not a module set — the second
+is refused, first come, first served — and the two orders give different results
+(`Props.C05Order.process_load_order_unconditional_fails : ¬ ProcessLoadOrderIrrelevant`, witness
+of `distinct_needed`, kernel-evaluated).  What is proved
+(`Goyang/Props/C05Order.lean`, simulation through every layer of the resolver model under
+renaming of the load sequence numbers `Mod.seq`):
+* `C05Order.process_files_load_order_irrelevant`: this statement for texts whose modules are
+  pairwise different (`Distinct`), arbitrary module names (a name with `@` is refused in every
+  order); `process_files_load_order_irrelevant_acceptable`: texts refused on their own may be present;
+* `C05Order.process_load_order_irrelevant`: the same for statement lists;
+* `C05Order.process_determined_by_first_loads` / `process_stable_order_irrelevant`: for arbitrary
+  load lists the outcome is a function of the first load of every header, hence invariant under
+  rearrangements that keep the loads of each header in their relative order;
+* `C05Order.refused_load_errors_perm`, `load_outcomes_perm`: the refusals are order independent.
+The tie to the code: load-order independence of the *code* is checked by the correspondence
+runner on every generated set (all or 24 / 200 sampled permutations per set; the driver is asked
+for the reversed and a shuffled load order as well). -/
 open Goyang.Model in
 def ProcessLoadOrderIrrelevant : Prop :=
   ∀ (opts : Opts) (files₁ files₂ : List SrcFile), files₁.Perm files₂ →
